@@ -41,7 +41,11 @@ impl<S: Storage> TableScanExecutor<S> {
         let mut it = txn
             .scan(
                 &col_idx,
-                ScanOptions::default().with_filter_opt(self.filter),
+                // The optimizer assumes that a scan is ordered by the primary key
+                // (`table_is_sorted_by_primary_key`), so row-sets must be merged, not concatenated.
+                ScanOptions::default()
+                    .with_sorted(true)
+                    .with_filter_opt(self.filter),
             )
             .await?;
 
